@@ -3,6 +3,7 @@ C20 driver: supplies configuration values through rc file / SECTION.FIELD=VALUE 
 Systems and reads back the values and types in effect.
 """
 import configparser
+import json
 import os
 import shutil
 from collections.abc import Iterable
@@ -197,6 +198,43 @@ def run_single(sc):
             c = andes.System(config_path=p, **kw)
             ev.append(dict(e="roundtrip", same_values=bool(c.TDS.config.tf == 7.25 and c.PFlow.config.max_iter == 31),
                            same_types=bool(type(c.TDS.config.tf) is float), bad=[], runtime_edit=True))
+            return dict(meta=dict(tid=sc["tid"], sid=sc["sid"]), ev=ev)
+        if sc["mode"] == "rc_discovery":
+            # which rc file is the one supplied when none is named: documented search order 1. current directory 2. home directory;
+            # run in a fresh interpreter with a scratch HOME and a scratch working directory
+            import subprocess
+            import sys as _sys
+            from .common import REPO, VERIF, clean_env
+            home, cwd = os.path.join(d, "home"), os.path.join(d, "cwd")
+            os.makedirs(os.path.join(home, ".andes"))
+            os.makedirs(cwd)
+            code = ("import sys, json\nsys.path.insert(0, %r)\nimport andes\nandes.config_logger(50, file=False)\n"
+                    "ss = andes.System(pycode_path=%r, no_output=True, autogen_stale=False%s)\n"
+                    "print('RESULT ' + json.dumps(dict(tf=ss.TDS.config.tf, max_iter=ss.PFlow.config.max_iter, freq=ss.config.freq)))\n")
+            for which, files in (("cwd_only", ("cwd",)), ("home_only", ("home",)), ("both", ("cwd", "home")), ("both+option", ("cwd", "home"))):
+                for f_ in (os.path.join(home, ".andes", "andes.rc"), os.path.join(cwd, "andes.rc")):
+                    if os.path.exists(f_):
+                        os.remove(f_)
+                if "home" in files:
+                    open(os.path.join(home, ".andes", "andes.rc"), "w").write("[System]\nfreq = 50\n[TDS]\ntf = 11.5\n[PFlow]\nmax_iter = 41\n")
+                if "cwd" in files:
+                    open(os.path.join(cwd, "andes.rc"), "w").write("[System]\nfreq = 55\n[TDS]\ntf = 13.5\n")
+                opt = ", config_option=['TDS.tf=2.5']" if which.endswith("option") else ""
+                env = clean_env({"HOME": home})
+                pr = subprocess.run([_sys.executable, "-c", code % (REPO, pycode_path(), opt)], cwd=cwd, env=env, stdout=subprocess.PIPE,
+                                    stderr=subprocess.PIPE, timeout=300)
+                got = None
+                for line in pr.stdout.decode(errors="replace").splitlines():
+                    if line.startswith("RESULT "):
+                        got = json.loads(line[7:])
+                # expected from the documented order: the file in the working directory wins as a whole (the home file is not merged)
+                src = "cwd" if "cwd" in files else "home"
+                exp = dict(tf=(13.5 if src == "cwd" else 11.5), max_iter=(25 if src == "cwd" else 41), freq=(55 if src == "cwd" else 50))
+                if which.endswith("option"):
+                    exp["tf"] = 2.5
+                ok = got is not None and all(float(got[k_]) == float(exp[k_]) for k_ in exp)
+                ev.append(dict(e="accept", kind="rc_discovery:%s" % which, raised=not ok,
+                               raised_text=None if ok else "effective %s, expected %s (%s)" % (got, exp, pr.stderr.decode(errors="replace")[-200:])))
             return dict(meta=dict(tid=sc["tid"], sid=sc["sid"]), ev=ev)
         if sc["mode"] == "multi_option":
             raised = None
